@@ -222,3 +222,21 @@ package deltatracker
 //@   loop 1 invariant forall j K :: dtDesiredHas(c, j) == old(dtDesiredHas(c, j)) && (dtDesiredHas(c, j) ==> dtDesiredVal(c, j) == old(dtDesiredVal(c, j)))
 //@   loop 1 invariant forall j K :: dtDPHas(c, j) == (old(dtDPHas(c, j)) && !dtApplied[j])
 //@   loop 1 invariant forall j K :: dtDPHas(c, j) ==> dtDPVal(c, j) == old(dtDPVal(c, j))
+
+//@ -- ReplaceAllIter, per key reported by the dataplane (the callback handed to the iterator): the key is filed in
+//@ -- the new "in dataplane and desired" table iff it is desired, else in the new "not desired" table, with the
+//@ -- reported value; a desired key whose reported value differs gets (or keeps) a pending update carrying the
+//@ -- DESIRED value, one whose value is right loses any pending update; the key is struck off both old tables.
+//@ spec macro dtEq(t *DeltaTracker, a V, b V) bool = t.valuesEqual(a, b)
+//@ func (*DataplaneView).ReplaceAllIter$1
+//@   property C18
+//@   option safety off
+//@   requires *c != nil && dtMapsOK(*c) && *newInDPDesired != nil && *newInDPNotDesired != nil
+//@   requires *newInDPDesired != (*c).desiredUpdates && *newInDPDesired != (*c).inDataplaneAndDesired && *newInDPDesired != (*c).inDataplaneNotDesired && *newInDPDesired != *newInDPNotDesired
+//@   requires *newInDPNotDesired != (*c).desiredUpdates && *newInDPNotDesired != (*c).inDataplaneAndDesired && *newInDPNotDesired != (*c).inDataplaneNotDesired
+//@   requires *oldInDPDesired == (*c).inDataplaneAndDesired && *oldInDPNotDesired == (*c).inDataplaneNotDesired
+//@   ensures old(dtDesiredHas(*c, k)) ==> (k in *newInDPDesired) && (*newInDPDesired)[k] == v
+//@   ensures !old(dtDesiredHas(*c, k)) ==> (k in *newInDPNotDesired) && (*newInDPNotDesired)[k] == v
+//@   ensures old(dtDesiredHas(*c, k)) && !dtEq(*c, old(dtDesiredVal(*c, k)), v) ==> (k in (*c).desiredUpdates) && (*c).desiredUpdates[k] == old(dtDesiredVal(*c, k))
+//@   ensures old(dtDesiredHas(*c, k)) && dtEq(*c, old(dtDesiredVal(*c, k)), v) ==> !(k in (*c).desiredUpdates)
+//@   ensures !(k in *oldInDPDesired) && !(k in *oldInDPNotDesired)
